@@ -80,6 +80,15 @@ def gen_cases(rng, tier):
                         if v[0] != "single":
                             break
                 near_dup(ver, v, mutate_one(rng, v), v[0])
+    # the same members in another order: element order is part of the value for every sequence kind, frozensets included
+    # (an interpreter dumps a frozenset in iteration order, and two constants may hold the same strings in different orders)
+    for ver in VERS:
+        for code in (b"(", b">", b"[", b"<"):
+            strs = tuple(("str", b"z", w) for w in (b"alpha", b"beta", b"gamma", b"delta"))
+            for perm in ((2, 0, 1, 3), (3, 2, 1, 0), (1, 0, 2, 3)):
+                near_dup(ver, ("seq", code, strs), ("seq", code, tuple(strs[k] for k in perm)), "permuted-" + code.decode())
+            ints = tuple(("int", struct.pack("<i", k)) for k in (1, 2, 3))
+            near_dup(ver, ("seq", code, ints), ("seq", code, (ints[2], ints[0], ints[1])), "permuted-" + code.decode())
     # equal twins: the same value marshalled twice as separate objects with independent flags (they may be merged, the tree must stay)
     def twin(v):
         k = v[0]
